@@ -1889,7 +1889,100 @@ def rule_roundtrip(ctx, prim, sec):
 
 
 # ------------------------------------------------------------------ C01.eq
+def eq_exec(ctx):
+    """ProtocolTreeNode.__eq__ executed on pairs of concrete trees built by the node class's own constructor: the answer
+    must be that of the reference relation - same tag, data and attributes, the same number of children, and every child of
+    either side has an equal child on the other side.  -> (problems, pairs tried) or None when it cannot be followed"""
+    from ..absint import Interp, Obj, _Raise, _Return, NeedAtom, Budget, DomainGrew, C_NONE
+    repo = ctx.repo
+    ptn = repo.cls(PTN, "ProtocolTreeNode")
+
+    def raw_node(itp, c, args, kwargs, env, depth, e):
+        if c is not ptn:
+            return None
+        ob = Obj(c)
+        k, init = repo.find_method(c, "__init__")
+        try:
+            itp.call_function(init, k, ("obj", ob), args, kwargs, depth=depth + 1)
+        except _Return:
+            pass
+        return ("obj", ob)
+    it = Interp(repo, {}, {}, hooks={"construct": raw_node})
+    it.max_steps = 10 ** 7
+    it.loop_unroll = 64
+
+    def N(tag, attrs=None, children=None, data=None):
+        return (tag, tuple(sorted((attrs or {}).items())), tuple(children or ()), data)
+
+    def build(t):
+        tag, attrs, children, data = t
+        a = ("dict", {k: ("c", v) for k, v in attrs}) if attrs else C_NONE
+        ch = ("list", [build(c) for c in children]) if children else C_NONE
+        return it.construct(ptn, [("c", tag), a, ch, ("c", data) if data is not None else C_NONE], {}, {"@module": ptn.module, "@owner": None}, 0, None)
+
+    def ref(x, y):
+        if x[0] != y[0] or x[1] != y[1] or (x[3] or None) != (y[3] or None) and not (x[3] is None and y[3] is None):
+            return False
+        if len(x[2]) != len(y[2]):
+            return False
+        return all(any(ref(c, d) for d in y[2]) for c in x[2]) and all(any(ref(c, d) for d in x[2]) for c in y[2])
+    A, B, X = N("a", {"k": "1"}), N("b"), N("x", None, None, b"d")
+    base = N("t", {"p": "1", "q": "2"}, [A, B], None)
+    pairs = [
+        ("identical trees", base, base, None),
+        ("another tag", base, N("u", {"p": "1", "q": "2"}, [A, B]), "tag"),
+        ("another attribute value", base, N("t", {"p": "1", "q": "3"}, [A, B]), "attributes"),
+        ("one attribute more", base, N("t", {"p": "1", "q": "2", "r": "3"}, [A, B]), "attributes"),
+        ("another data", N("t", None, None, b"abc"), N("t", None, None, b"abd"), "data"),
+        ("data against no data", N("t", None, None, b"abc"), N("t"), "data"),
+        ("one child more", base, N("t", {"p": "1", "q": "2"}, [A, B, X]), "child count"),
+        ("the same children in another order", base, N("t", {"p": "1", "q": "2"}, [B, A]), None),
+        ("a child of the left side has no partner (first child matches, second does not)", N("t", None, [A, X]), N("t", None, [A, B]), "children, left to right"),
+        ("a child of the right side has no partner", N("t", None, [A, A]), N("t", None, [A, B]), "children, right to left"),
+        ("a child of the left side has no partner (other side repeats a child)", N("t", None, [A, B]), N("t", None, [A, A]), "children, left to right"),
+        ("a difference two levels down", N("t", None, [N("m", None, [A])]), N("t", None, [N("m", None, [B])]), "children, recursively"),
+        ("equal two levels down", N("t", None, [N("m", None, [A, X])]), N("t", None, [N("m", None, [X, A])]), None),
+    ]
+    problems = []
+    try:
+        for label, x, y, what in pairs:
+            for (l, r, d) in ((x, y, ""), (y, x, " (operands swapped)")):
+                want = ref(l, r)
+                try:
+                    got = it.force(it.method_call(build(l), "__eq__", [build(r)], {}, {"@module": ptn.module, "@owner": ptn}, 0, None))
+                except _Raise as ex:
+                    problems.append("%s%s: raises %s" % (label, d, (ex.text or "")[:50]))
+                    continue
+                if got[0] != "c" or not isinstance(got[1], bool):
+                    return None
+                if got[1] != want:
+                    problems.append("%s%s: __eq__ answers %s%s" % (label, d, got[1], " - the %s is not compared" % what if what and got[1] else ""))
+        # something that is not a node at all
+        other = it.force(it.method_call(build(base), "__eq__", [("c", "t")], {}, {"@module": ptn.module, "@owner": ptn}, 0, None))
+        if other != ("c", False):
+            problems.append("compared with a string: answers %s" % (other[1] if other[0] == "c" else "something else"))
+    except (NeedAtom, Budget, DomainGrew):
+        return None
+    return sorted(set(problems)), 2 * len(pairs) + 1
+
+
 def rule_eq(ctx):
+    ex = eq_exec(ctx)
+    if ex is not None:
+        # decided by execution; seven facts, each judged on the pairs that exercise it
+        problems, n = ex
+        fn0 = ctx.repo.method(PTN, "ProtocolTreeNode", "__eq__")
+        w0 = where(PTN, "ProtocolTreeNode.__eq__", fn0.lineno)
+        facts = [("compares tag", ("tag",)), ("compares data", ("data",)), ("compares attributes", ("attribute",)), ("compares child count", ("one child more",)),
+                 ("children matched left to right, each child on its own", ("left side",)), ("children matched right to left", ("right side",)),
+                 ("order of children irrelevant, differences found at any depth, non-nodes unequal", ("order", "levels down", "identical", "string"))]
+        for label, keys in facts:
+            mine = [p_ for p_ in problems if any(k_ in p_ for k_ in keys)]
+            ctx.check("C01.eq", not mine, w0, label, "; ".join(mine[:2]) + " (%d pairs of trees executed)" % n, "%d pairs of trees executed" % n)
+        rest = [p_ for p_ in problems if not any(k_ in p_ for _l, keys in facts for k_ in keys)]
+        if rest:
+            ctx.violate("C01.eq", w0, "tree equality", "; ".join(rest[:2]))
+        return
     cls = ctx.repo.cls(PTN, "ProtocolTreeNode")
     fn = ctx.repo.method(PTN, "ProtocolTreeNode", "__eq__")
     w = where(PTN, "ProtocolTreeNode.__eq__", fn.lineno)
